@@ -57,7 +57,7 @@ pub fn registry_snapshot() -> Option<Vec<(PathBuf, Vec<String>)>> {
     let mut v: Vec<(PathBuf, Vec<String>)> = guard
         .iter()
         .map(|(k, set)| {
-            let mut names: Vec<String> = set.iter().cloned().collect();
+            let mut names: Vec<String> = set.keys().cloned().collect();
             names.sort();
             (k.clone(), names)
         })
@@ -81,8 +81,9 @@ pub fn registry_is_poisoned() -> bool {
 
 pub const NOTE: &str = super::NOTE;
 
-pub fn merge(original_contents: String, new_contents: String) -> String {
-    super::merge(original_contents, new_contents)
+/// The contents of a file holding the given types (name, generated single-type output).
+pub fn merge(types: &[(String, String)]) -> String {
+    super::merge(&types.iter().cloned().collect())
 }
 
 pub fn import_path(from: &Path, import: &Path) -> Result<String, ExportError> {
